@@ -70,6 +70,7 @@ class Cli:
         self.enable_datetime: bool = False  # --datetime
         self.strings_converters: bool = False  # --strings-converters
         self.max_literals: int = -1  # --max-strings-literals
+        self.disabled_str_types: List[str] = []  # --disable-str-serializable-types
         self.merge_policy: List[ModelCmp] = []  # --merge
         self.structure_fn: STRUCTURE_FN_TYPE = None  # -s
         self.model_generator: Type[GenericModelCodeGenerator] = None  # -f & --code-generator
@@ -103,17 +104,23 @@ class Cli:
         dict_keys_fields: List[str] = namespace.dict_keys_fields
         preamble: str = namespace.preamble
 
-        for name in namespace.disable_str_serializable_types:
-            registry.remove_by_name(name)
+        self.disabled_str_types = namespace.disable_str_serializable_types
+        self._disable_str_serializable_types()
 
         self.setup_models_data(namespace.model or (), namespace.list or (), parser)
         self.validate(merge_policy, framework, code_generator)
         self.set_args(merge_policy, structure, framework, code_generator, code_generator_kwargs_raw,
                       dict_keys_regex, dict_keys_fields, disable_unicode_conversion, preamble)
 
+    def _disable_str_serializable_types(self):
+        for name in self.disabled_str_types:
+            registry.remove_by_name(name)
+
     def run(self):
         if self.enable_datetime:
             register_datetime_classes()
+            # Date and time types do not exist in the registry when parse_args handles --disable-str-serializable-types
+            self._disable_str_serializable_types()
         generator = MetadataGenerator(
             dict_keys_regex=self.dict_keys_regex,
             dict_keys_fields=self.dict_keys_fields
